@@ -36,7 +36,9 @@ def rand_value(rng, known_classes):
         r = rng.random()
         if r < 0.08:
             k = rng.randint(0, 9)
-            return {"t": "ExtensionObject", "type": [rng.choice([0, 1, 2]), "i", str(rng.choice([1, 884, 886, 889, 12345]))],
+            tns = rng.choice([0, 1, 2])
+            # 885 / 888 in namespace 0 are the Range / EUInformation encodings (decoded as structures); in any other namespace they are ordinary type ids
+            return {"t": "ExtensionObject", "type": [tns, "i", str(rng.choice([1, 884, 886, 889, 12345] + ([885, 888, 887] if tns != 0 else [])))],
                     "raw": "<x:Body%d xmlns:x=\"urn:x\" a=\"%s\"><x:k>%s</x:k></x:Body%d>" % (k, gen.plain_text(rng), gen.plain_text(rng), k)}
         while True:
             v = values.rand_value(rng)
